@@ -149,6 +149,9 @@ pub struct World {
     pub viol: Vec<Violation>,
     pub stats: Stats,
     pub trace: Fnv,
+    /// like `trace` but with every Err folded to one value (error variants may legally differ
+    /// between backends)
+    pub class_trace: Fnv,
     pub abstract_trace: Fnv,
     pub wire: Vec<WireEv>,
     call_id: u64,
@@ -164,6 +167,8 @@ pub struct World {
     pub keep_outcomes: bool,
     /// history index of a message presented without being taken out of flight
     peeked: Option<usize>,
+    /// a rekey_* API call is in progress (its use of nonce 2^64-1 is the one legitimate use)
+    in_rekey_call: bool,
     /// when false, the write-side ledger ignores events (harness-induced reuse)
     harness_nonce_call: bool,
     /// per session: Some(error count at the time) once a non-genuine handshake message was accepted
@@ -172,6 +177,8 @@ pub struct World {
     pub errs: Vec<u64>,
     /// per session: an out-of-phase call (turn / finished / one-way) has been made
     pub misuse: Vec<bool>,
+    /// per session: calls that returned an error other than "PSK not supplied yet"
+    pub errs_hard: Vec<u64>,
 }
 
 fn ecode(e: &Error) -> u32 {
@@ -273,6 +280,7 @@ impl World {
             viol: vec![],
             stats: Stats::default(),
             trace: Fnv::new(),
+            class_trace: Fnv::new(),
             abstract_trace: Fnv::new(),
             wire: vec![],
             call_id: 0,
@@ -286,10 +294,12 @@ impl World {
             faults_in_run: 0,
             keep_outcomes: false,
             peeked: None,
+            in_rekey_call: false,
             harness_nonce_call: false,
             tamper_accepted: vec![None; (cfg.nodes.len() + 1) / 2],
             errs: vec![0; (cfg.nodes.len() + 1) / 2],
             misuse: vec![false; (cfg.nodes.len() + 1) / 2],
+            errs_hard: vec![0; (cfg.nodes.len() + 1) / 2],
             cfg,
         };
         for i in 0..w.cfg.nodes.len() {
@@ -386,7 +396,13 @@ impl World {
             Ok(Ok(hs)) => (St::Hs(Box::new(hs)), "ok".to_string()),
             Ok(Err(e)) => (St::Gone("build-err"), format!("{e:?}")),
         };
-        if keys_regular || proto.is_none() {
+        // don't-care zones of the build expectation: zero-padded psk indices are a name-grammar
+        // question (C13, not claimed); the random source is not one of the "named primitives"
+        let padded_psk = nc.name.contains("psk0") && nc.name.split('_').nth(1).map_or(false, |h| {
+            h.split('+').any(|m| m.rsplit("psk").next().map_or(false, |d| d.len() > 1 && d.starts_with('0')))
+        });
+        let dont_care_build = (padded_psk && build_result != "ok") || nc.deny == Some(crate::seam::Prim::Rng);
+        if (keys_regular || proto.is_none()) && !dont_care_build {
             let got_ok = build_result == "ok";
             if build_result != "panic" && got_ok != expect_ok {
                 let site = format!(
@@ -404,6 +420,9 @@ impl World {
                     &format!("name={} result={}", nc.name, build_result),
                 );
             }
+        }
+        if !expect_ok && (keys_regular || proto.is_none()) && matches!(build_result.as_str(), "Input" | "Decrypt" | "Dh") {
+            self.flag(&["C12"], "build-error-not-descriptive", &format!("{}", build_result), &format!("name={} initiator={} s={} rs={} deny={:?}", nc.name, nc.initiator, nc.s_priv.is_some(), nc.rs_pub.is_some(), nc.deny));
         }
         self.trace.write(build_result.as_bytes());
         let mut shadow = if matches!(st, St::Hs(_)) { shadow } else { None };
@@ -510,6 +529,10 @@ impl World {
                         );
                     }
                 },
+                CipherEvKind::Encrypt if ev.nonce == u64::MAX && self.in_rekey_call => {
+                    // REKEY computed by the caller of the cipher instead of Cipher::rekey
+                    self.stats.probe("rekey-encrypt-at-reserved-nonce");
+                },
                 CipherEvKind::Encrypt => {
                     if ev.nonce == u64::MAX {
                         self.flag(
@@ -522,7 +545,14 @@ impl World {
                     // reuse the harness itself causes (explicit stateless nonces, sending nonce
                     // moved backwards, replayed ephemerals) is not snow's - except at 2^64-1,
                     // which no caller action can legitimately reach
-                    if (tainted || self.harness_nonce_call || self.cfg.rng_mode != RngMode::Stream) && ev.nonce != u64::MAX {
+                    // Also outside C06's quantifier (failing and retried calls between honest
+                    // parties): a session that has accepted a non-genuine handshake message. Its
+                    // keys may be functions of attacker-chosen values only - e.g. an all-zero
+                    // X25519 point, which the specification allows an implementation to accept,
+                    // makes ee/es/se contribute nothing, so two attempts at one message meet at
+                    // the same key although each used a fresh ephemeral.
+                    let attacker_keys = self.tamper_accepted.get(node_idx / 2).map_or(false, |t| t.is_some());
+                    if (tainted || attacker_keys || self.harness_nonce_call || self.cfg.rng_mode != RngMode::Stream) && ev.nonce != u64::MAX {
                         continue;
                     }
                     let key = (ev.key, ev.nonce);
@@ -661,7 +691,7 @@ impl World {
                     "none"
                 } else {
                     let f = fs[field as usize % fs.len()];
-                    let p = f.off + (pos as usize % f.len);
+                    let p = if pos >= u32::MAX - 1 { f.off + f.len - 1 - ((u32::MAX - pos) as usize).min(f.len - 1) } else { f.off + (pos as usize % f.len) };
                     if p < b.len() {
                         b[p] ^= 1 << (bit % 8);
                     }
@@ -684,6 +714,32 @@ impl World {
                 let by = (by as usize).min(70_000);
                 b.extend(std::iter::repeat(fill).take(by));
                 "extend"
+            },
+            Mutation::SetField { field, byte } => {
+                let fs: Vec<&Field> = msg.fields.iter().filter(|f| f.len > 0).collect();
+                if !fs.is_empty() {
+                    let f = fs[field as usize % fs.len()];
+                    for x in b[f.off..(f.off + f.len).min(msg.bytes.len())].iter_mut() {
+                        *x = byte;
+                    }
+                }
+                "setfield"
+            },
+            Mutation::ByteSet { field, pos, byte } => {
+                let fs: Vec<&Field> = msg.fields.iter().filter(|f| f.len > 0).collect();
+                if !fs.is_empty() {
+                    let f = fs[field as usize % fs.len()];
+                    let p = if pos >= u32::MAX - 1 { f.off + f.len - 1 - ((u32::MAX - pos) as usize).min(f.len - 1) } else { f.off + (pos as usize % f.len) };
+                    if p < b.len() {
+                        b[p] = byte;
+                    }
+                }
+                "byteset"
+            },
+            Mutation::TruncLast { n } => {
+                let l = b.len().saturating_sub(n as usize);
+                b.truncate(l);
+                "truncate"
             },
             Mutation::Multi { k, seed } => {
                 if !b.is_empty() {
@@ -881,19 +937,24 @@ impl World {
     }
 
     fn record_result(&mut self, what: &str, phase: &str, r: &Result<usize, Error>) {
-        if r.is_err() {
+        if let Err(e) = r {
             let s = self.cur_node / 2;
             if s < self.errs.len() {
                 self.errs[s] += 1;
+                if *e != Error::State(StateProblem::MissingPsk) {
+                    self.errs_hard[s] += 1;
+                }
             }
         }
         let code = match r {
             Ok(n) => {
                 self.trace.write_u64(*n as u64);
+                self.class_trace.write_u64(*n as u64);
                 "ok".to_string()
             },
             Err(e) => {
                 self.trace.write_u64(1_000_000 + ecode(e) as u64);
+                self.class_trace.write_u64(1_000_000);
                 format!("{e:?}")
             },
         };
@@ -992,11 +1053,18 @@ impl World {
         let pre = out.clone();
         let ctx = mix(i as u64, shadow.idx as u64);
         self.begin_call(node, ctx);
+        // RNG fault: once in a while the random source hands out an unusable value (all zero),
+        // which is not a valid P-256 scalar - key generation has to cope with it
+        if shadow.proto.dh == crate::refnoise::DhK::P256 && self.cfg.rng_mode == RngMode::Stream && mix(self.cfg.nodes[i].rng_seed, self.call_id) % 64 == 0 {
+            node.rng.zero_next.store(true, std::sync::atomic::Ordering::Relaxed);
+            self.stats.fault("rng-yields-invalid-scalar");
+        }
         let hs = match &mut node.st {
             St::Hs(h) => h,
             _ => return,
         };
         let res = guarded(|| hs.write_message(payload, &mut out));
+        node.rng.zero_next.store(false, std::sync::atomic::Ordering::Relaxed);
         let res = match res {
             Err(p) => {
                 let bsite = format!("{site}/buf{}", boundary_class(buflen, &fields, predicted));
@@ -1403,6 +1471,8 @@ impl World {
                 "truncate" => "alteration-truncate",
                 "extend" => "alteration-extend",
                 "multiedit" => "alteration-multiedit",
+                "setfield" => "alteration-field-overwrite",
+                "byteset" => "alteration-byteset",
                 _ => "alteration",
             });
             self.faults_in_run += 1;
@@ -1631,7 +1701,22 @@ impl World {
                     node.rs_allowed.push(shadow.rs.clone());
                     node.rs_suspended = true;
                 }
-                if whys.is_empty() {
+                // Only the genuine next message of an honest sender MUST be accepted. Anything else
+                // the model would let through (an altered cleartext field, a replay that happens
+                // to parse, a byzantine peer's off-curve key) may legally be rejected early.
+                let must_accept = match meta {
+                    Some(m) => {
+                        !altered
+                            && m.from as usize == Self::peer(i)
+                            && matches!(m.phase, Phase::Hs { idx } if idx == shadow.idx)
+                            && !self.cfg.nodes[m.from as usize].evil_static_pub
+                    },
+                    None => false,
+                };
+                if whys.is_empty() && !must_accept {
+                    self.stats.probe("early-rejection-of-non-genuine-input");
+                }
+                if whys.is_empty() && must_accept {
                     let mut props = vec!["C02", "C01"];
                     if self.epilogue || prev_err {
                         props.extend_from_slice(&["C07", "C03"]);
@@ -1717,6 +1802,14 @@ impl World {
             whys.push(Why::OneWay);
         }
         let mut mres: Option<Result<Vec<u8>, RefErr>> = None;
+        if !whys.is_empty() {
+            // independent argument faults next to an out-of-phase call: either error may be reported
+            if bytes.len() < TAGLEN {
+                whys.push(Why::Crypto);
+            } else if n_used == u64::MAX {
+                whys.push(Why::Exhausted);
+            }
+        }
         if whys.is_empty() {
             if bytes.len() < TAGLEN {
                 whys.push(Why::Crypto);
@@ -1929,6 +2022,12 @@ impl World {
                     self.trace.write_u64(r.is_ok() as u64);
                     // which argument combinations set_psk accepts is not part of any property
                     // (C10 only demands Ok-or-Err); the shadow follows a well-formed success
+                    if r.is_ok() && !expect_ok {
+                        // accepted something outside the documented domain: legal for C10, but
+                        // the model cannot know what key is now installed
+                        self.stats.probe("set_psk-accepted-unusual-arguments");
+                        node.shadow = None;
+                    }
                     if r.is_ok() && expect_ok {
                         self.stats.probe("late-psk-set");
                         if let Some(sh) = node.shadow.as_mut() {
@@ -2113,7 +2212,9 @@ impl World {
                     _ => "rekey-manual",
                 });
                 self.trace.write_u64(77);
+                self.in_rekey_call = true;
                 self.drain_cipher_log(i, "rekey", false);
+                self.in_rekey_call = false;
                 if let Some(trm) = node.trm.as_mut() {
                     match which {
                         RekeyKind::Outgoing => {
@@ -2171,7 +2272,8 @@ impl World {
                         self.flag(&["C03"], "both-finished-after-alteration-without-error", &how, &format!("name={}", self.cfg.nodes[a].name));
                     }
                 }
-                if self.cfg.mismatch && s == 0 && self.errs[s] == 0 {
+                // (a call that merely came before set_psk is not "an error" of the handshake)
+                if self.cfg.mismatch && s == 0 && self.errs_hard[s] == 0 {
                     self.flag(&["C08"], "both-finished-despite-context-mismatch", &self.cfg.stratum.clone(), &format!("{} / {}", self.cfg.nodes[a].name, self.cfg.nodes[b].name));
                 }
                 // equal handshake hashes (C02): last value observed while in handshake state
@@ -2274,8 +2376,13 @@ pub fn leak_check(out: &[u8], p: &[u8]) -> bool {
     let mut off = 0;
     while off < p.len() {
         let end = (off + 16).min(p.len());
-        if end - off >= 8 && end <= out.len() && out[off..end] == p[off..end] {
-            return true;
+        if end - off >= 8 && end <= out.len() {
+            // equal up to a few altered positions: decrypt-before-verify yields P xor delta
+            let same = out[off..end].iter().zip(p[off..end].iter()).filter(|(a, b)| a == b).count();
+            let need = ((end - off) * 3 + 3) / 4;
+            if same >= need.max(6) {
+                return true;
+            }
         }
         off += 16;
     }
